@@ -37,7 +37,7 @@ func TestVerifC12Outage(t *testing.T) {
 	defer w.close()
 	w.reset()
 	side, _ := c12RedisSide(w, false)
-	node, err := redis.CreateBlockingNode(redis.New(w.shards[0].Addr()))
+	node, err := redis.CreateBlockingNode(redis.New(w.shards[0].Addr(), redis.WithPass(w.pass)))
 	if err != nil {
 		m.Inconclusive("CreateBlockingNode: %v", err)
 		return
